@@ -12,6 +12,7 @@ import (
 	"encoding/json"
 	"fmt"
 	"os"
+	"os/exec"
 	"os/signal"
 	"syscall"
 	"time"
@@ -29,10 +30,11 @@ type op struct {
 type script struct {
 	Ops    []op              `json:"ops"`
 	Exit   int               `json:"exit"`
-	Signal string            `json:"signal,omitempty"` // "", KILL, TERM, SEGV
-	Hang   bool              `json:"hang,omitempty"`   // after the ops: write the completion record, then sleep (cancellation cases)
-	Done   string            `json:"done"`             // path of the completion record
-	Env    map[string]string `json:"env,omitempty"`    // variables the child is expected to see
+	Signal string            `json:"signal,omitempty"`    // "", KILL, TERM, SEGV
+	Hang   bool              `json:"hang,omitempty"`      // after the ops: write the completion record, then sleep (cancellation cases)
+	Linger int               `json:"linger_ms,omitempty"` // before exiting, leave a descendant behind which keeps stdout/stderr open that long (and writes nothing)
+	Done   string            `json:"done"`                // path of the completion record
+	Env    map[string]string `json:"env,omitempty"`       // variables the child is expected to see
 }
 
 // doneRecord is what the child reports about its own execution (trusted base of the oracle:
@@ -85,6 +87,11 @@ func emitMain(path string) {
 	tmp := sc.Done + ".tmp"
 	if err := os.WriteFile(tmp, out, 0o644); err == nil {
 		_ = os.Rename(tmp, sc.Done)
+	}
+	if sc.Linger > 0 {
+		c := exec.Command("/bin/sleep", fmt.Sprintf("%d.%03d", sc.Linger/1000, sc.Linger%1000))
+		c.Stdout, c.Stderr = os.Stdout, os.Stderr
+		_ = c.Start()
 	}
 	if sc.Hang {
 		time.Sleep(120 * time.Second)
